@@ -8,7 +8,10 @@
 // through the same decoder (gen() reads one byte per character from the fuzzer's input).
 //
 // Oracle (nothing else counts):
-//   * a sanitizer report / crash (the process dies; the driver re-runs the journalled case);
+//   * a sanitizer report about memory / a crash (the process dies; the driver re-runs the journalled case);
+//     UBSan reports about arithmetic on boundary numbers (float -> int conversion of NaN/inf/1e30, signed overflow) are
+//     NOT part of the property text (no memory access, no allocation, no wrong size) and are counted separately
+//     as "outside the property";
 //   * one allocation request above 512 MiB while reading a header shorter than 4 KiB (with data files < 4 MiB);
 //   * accepted data whose size contradicts the header: the reader returns an object although the data file is
 //     shorter than offset + (number of elements of the returned object) x (bytes per pixel of the header);
@@ -529,20 +532,6 @@ const char* const KEYWORDS[] = { "number of dimensions", "matrix size [%]", "mat
                                  "TOF timing resolution (ps)", "start horizontal bed position (mm)" };
 const int NKEYWORDS = int(sizeof(KEYWORDS) / sizeof(KEYWORDS[0]));
 
-// keywords whose value is used directly as a vector length (known findings L4/F5: unbounded allocation): the mutator
-// does not put values above COUNT_CAP there unless VERIF_NO_EXCLUDE=1
-const char* const COUNT_KEYS[] = { "number of dimensions", "number of time frames", "number of energy windows", "number of image data types",
-                                   "total number of data sets", "number of scan data types", "%number of buckets", "%number of normalization components" };
-const long COUNT_CAP = 100000;
-bool
-is_count_key(const std::string& std_key)
-{
-  for (const char* k : COUNT_KEYS)
-    if (std_key == c17::ref_standardise(k))
-      return true;
-  return false;
-}
-
 std::string
 boundary_value(int b)
 {
@@ -725,197 +714,44 @@ mutate(const std::string& base, const std::string& other, const json& muts)
 }
 
 // ---------------------------------------------------------------------------------------------------
-// known findings: signatures computed from the final text (+ reader); "" = not excluded
-//   (filled in while triaging; see work/notes/C17_findings.md)
-//! last value given to a key (any index); "" and found=false if the key does not occur
-std::string
-last_value(const std::vector<KV>& kvs, const char* key, bool& found)
-{
-  const std::string k = c17::ref_standardise(key);
-  std::string v;
-  found = false;
-  for (const KV& kv : kvs)
-    if (kv.key == k)
-      {
-        v = kv.value;
-        found = true;
-      }
-  return v;
-}
-bool
-positive_int(const std::string& v)
-{
-  char* e = nullptr;
-  const long x = std::strtol(v.c_str(), &e, 10);
-  return e != v.c_str() && x > 0;
-}
+// known findings: signatures computed from the final text (+ reader); "" = not excluded.
+// One class is left (all others were repaired in the library; their inputs are regression cases under replays/C17/):
+//   F7  the sizes given by "matrix size" drive allocations before the data file is looked at: the image readers allocate
+//       prod(matrix size) floats (create_image_and_header_from), and InterfileHeader::post_processing() gives every data
+//       set a list of (last matrix size) scale factors.  Known finding: the repair needs the data file to be examined
+//       before anything is allocated, in the header class and in three readers.
+const char* const SIG_F7 = "C17:alloc:matrix sizes of the header drive allocations > 256 MiB before the data file is checked";
 
 std::string
 known_signature_of(const std::string& text, int target, int sub)
 {
-  {
-    // F15: the last line ends in the continuation character
-    std::string t = text;
-    while (!t.empty() && (t.back() == '\n' || t.back() == '\r'))
-      {
-        const char ch = t.back();
-        t.pop_back();
-        if (ch == '\n')
-          {
-            if (!t.empty() && t.back() == '\r')
-              t.pop_back();
-            break; // exactly one line end is stripped: "\\\n\n" ends with an empty line, which is harmless
-          }
-      }
-    if (!t.empty() && t.back() == '\\')
-      return "C17:hang:continuation backslash on the last line";
-  }
   const std::vector<KV> kvs = mini_parse(text);
-  for (const KV& kv : kvs)
-    {
-      if (is_count_key(kv.key))
-        {
-          // L4: the value drives vector::resize directly
-          char* e = nullptr;
-          const double v = std::strtod(kv.value.c_str(), &e);
-          if (e != kv.value.c_str() && v > double(COUNT_CAP))
-            return "C17:alloc:count key:value>1e5";
-        }
-    }
-  for (const KV& kv : kvs)
-    if (kv.key == "pet data type")
-      {
-        // F6: a value outside the list gives index -1, which the post_processing functions use unchecked
-        const std::string v = c17::ref_standardise(kv.value);
-        if (!v.empty() && v != "emission" && v != "transmission" && v != "blank" && v != "attenuationcorrection" && v != "normalisation"
-            && v != "normalization" && v != "image")
-          return "C17:oob:PET data type not in the list";
-      }
-  if (target <= T_PARAMETRIC || (target == T_HEADER_CLASS && sub % 7 == 0))
-    {
-      // F7: the image readers allocate prod(matrix size) floats before looking at the data file
-      double prod = 1;
-      for (int k = 1; k <= 3; ++k)
-        {
-          double mx = 0;
-          for (const KV& kv : kvs)
-            if (kv.key == "matrix size" && kv.has_index && kv.index == k)
-              {
-                std::string t = kv.value;
-                for (char& ch : t)
-                  if (ch == '{' || ch == '}' || ch == ',')
-                    ch = ' ';
-                mx = std::max(mx, std::strtod(t.c_str(), nullptr));
-              }
-          prod *= std::max(mx, 1.);
-        }
-      if (prod * 4. > 256. * 1024 * 1024)
-        return "C17:alloc:image matrix sizes > 256 MiB";
-    }
-  bool f = false;
-  const bool spect_branch = c17::ref_standardise(last_value(kvs, "imaging modality", f)) == "nm";
-  const bool siemens_branch = !last_value(kvs, "%sms-mi version number", f).empty();
-  auto prefix_long = [](const std::string& v, long& x) {
-    char* e = nullptr;
-    x = std::strtol(v.c_str(), &e, 10);
-    return e != v.c_str();
+  auto first_number = [](const std::string& v) {
+    std::string t = v;
+    for (char& ch : t)
+      if (ch == '{' || ch == '}' || ch == ',')
+        ch = ' ';
+    return std::strtod(t.c_str(), nullptr);
   };
-  for (const KV& kv : kvs)
+  double prod = 1, largest = 0;
+  for (int k = 1; k <= 3; ++k)
     {
-      long x = 0;
-      // F9: zero data sets
-      if ((kv.key == "number of time frames" || kv.key == "number of image data types") && prefix_long(kv.value, x) && x == 0)
-        return "C17:oob:zero data sets";
-      // F10
-      if (kv.key == "name of data file" && kv.value.size() > 600)
-        return "C17:overflow:name of data file longer than the filename buffer";
-    }
-  {
-    // F11: keys registered with the address of a vector element
-    const bool siemens_class = (target == T_HEADER_CLASS && (sub % 7 == 3 || sub % 7 == 4 || sub % 7 == 5))
-                               || ((target == T_PDFS || target == T_PROJDATA_READ_FROM_FILE) && siemens_branch && !spect_branch);
-    bool stir30 = false;
-    for (const KV& kv : kvs)
-      if (kv.key == "version of keys" && kv.value == "STIR3.0")
-        stir30 = true;
-    for (const KV& kv : kvs)
-      {
-        long x = 0;
-        if (siemens_class && kv.key == "number of time frames" && (!prefix_long(kv.value, x) || x != 1))
-          return "C17:uaf:Siemens header with 'number of time frames' != 1";
-        // F13: InterfilePDFSHeaderSiemens does not initialise num_scan_data_types / num_buckets; a keyword without a
-        // (parsable) value leaves them as they are and the callback resizes vectors with the indeterminate number
-        if (siemens_class && (kv.key == "number of scan data types" || kv.key == "%number of buckets")
-            && (!prefix_long(kv.value, x) || x > 2147483647L || x < -2147483648L))
-          return "C17:uninit:Siemens count keyword without a parsable value";
-        if (stir30 && kv.key == "number of energy windows" && prefix_long(kv.value, x) && x != 1)
-          return "C17:uaf:STIR3.0 keys with 'number of energy windows' != 1";
-      }
-  }
-  {
-    // F8: SPECT branch
-    const bool spect_reader = ((target == T_PDFS || target == T_PROJDATA_READ_FROM_FILE) && spect_branch) || (target == T_HEADER_CLASS && sub % 7 == 2);
-    if (spect_reader)
-      {
-        long x = 0;
-        const std::string np = last_value(kvs, "number of projections", f);
-        if (!f || !prefix_long(np, x) || x <= 0 || x > COUNT_CAP)
-          return "C17:oob:SPECT header without a positive 'number of projections'";
-        for (const KV& kv : kvs)
-          if (kv.key == "number of dimensions" && prefix_long(kv.value, x) && x < 2)
-            return "C17:oob:SPECT header with fewer than 2 dimensions";
-      }
-  }
-  const bool pet_pdfs_reader
-      = ((target == T_PDFS || target == T_PROJDATA_READ_FROM_FILE) && !spect_branch && !siemens_branch) || (target == T_HEADER_CLASS && sub % 7 == 1);
-  if (pet_pdfs_reader)
-    {
-      // L4 (second part): InterfilePDFSHeader::find_storage_order() runs when a "... ring difference per segment" line is met
-      // and indexes matrix_size[k][0] for the dimensions given so far.  Replay the relevant keys in text order; a header
-      // where some dimension has no (non-empty) matrix size at that moment is excluded.
-      std::vector<char> have(2, 0); // the header starts with 2 dimensions
+      double mx = 0;
       for (const KV& kv : kvs)
-        {
-          long x = 0;
-          if (kv.key == "end of interfile")
-            break;
-          if (kv.key == "number of dimensions" && !kv.has_index)
-            {
-              if (prefix_long(kv.value, x))
-                {
-                  if (x < 0 || x > COUNT_CAP)
-                    break; // length_error / excluded elsewhere
-                  have.resize(std::size_t(x), 0);
-                }
-            }
-          else if (kv.key == "matrix size")
-            {
-              if (!kv.has_index || kv.index < 1 || kv.index > long(have.size()))
-                break; // error(): parsing ends with an exception
-              const auto p = kv.value.find_first_not_of(" \t{");
-              if (kv.value.find('{') != std::string::npos)
-                have[std::size_t(kv.index - 1)] = (p != std::string::npos && (isdigit((unsigned char)kv.value[p]) || kv.value[p] == '-' || kv.value[p] == '+'));
-              else if (p != std::string::npos && (isdigit((unsigned char)kv.value[p]) || kv.value[p] == '-' || kv.value[p] == '+' || kv.value[p] == '.'))
-                have[std::size_t(kv.index - 1)] = 1;
-            }
-          else if (kv.key == "minimum ring difference per segment" || kv.key == "maximum ring difference per segment")
-            {
-              if (have.size() == 4 || have.size() == 5)
-                for (char h : have)
-                  if (!h)
-                    return "C17:oob:find_storage_order with a dimension that has no matrix size";
-            }
-        }
-      // F5: Scanner::check_consistency() divides by the crystals-per-block / blocks-per-bucket numbers; for a scanner the
-      // library does not know they are 0 unless the header gives them (SIGFPE in InterfilePDFSHeader::post_processing)
-      for (const char* k : { "number of crystals_per_block in transaxial direction", "number of crystals_per_block in axial direction",
-                             "number of blocks_per_bucket in transaxial direction", "number of blocks_per_bucket in axial direction" })
-        {
-          const std::string v = last_value(kvs, k, f);
-          if (!f || !positive_int(v))
-            return "C17:sigfpe:Scanner::check_consistency:zero crystals/blocks per block/bucket";
-        }
+        if (kv.key == "matrix size" && kv.has_index && kv.index == k)
+          mx = std::max(mx, first_number(kv.value));
+      prod *= std::max(mx, 1.);
     }
+  // (both spellings: the Siemens norm header uses "%matrix size")
+  for (const KV& kv : kvs)
+    if (kv.key == "matrix size" || kv.key == "%matrix size")
+      largest = std::max(largest, first_number(kv.value));
+  const bool image_reader = target <= T_PARAMETRIC || (target == T_HEADER_CLASS && sub % 7 == 0);
+  if (image_reader && prod * 4. > 256. * 1024 * 1024)
+    return SIG_F7;
+  // the list of scale factors: (last matrix size) doubles per data set, for every kind of header
+  if (largest * 8. > 256. * 1024 * 1024)
+    return SIG_F7;
   return "";
 }
 
@@ -1392,9 +1228,9 @@ outcome_from_json(const json& j, Outcome& o, std::size_t& refused, std::size_t& 
   max_single = j["max_single"];
 }
 
-// ---- crash / allocation sites that are confirmed defects (work/notes/C17_findings.md).  A sanitizer report whose first
-// frame inside the library is one of these functions is a known finding: the case is counted as excluded, not as a new
-// violation.  VERIF_NO_EXCLUDE=1 switches the table off.
+// ---- crash / allocation sites that are confirmed defects and stay known findings (known_findings.json).  A sanitizer
+// report with one of these functions among its library frames is a known finding: the case is counted as excluded, not as
+// a new violation.  VERIF_NO_EXCLUDE=1 switches the table off.
 struct KnownSite
 {
   const char* function; // substring of a frame of the report
@@ -1403,49 +1239,27 @@ struct KnownSite
   const char* signature;
 };
 const KnownSite KNOWN_SITES[] = {
-  // L4: a count keyword is used directly as a vector length
-  { "InterfileHeader::read_matrix_info", true, "lloc", "C17:alloc:number of dimensions drives vector::resize (L4)" },
-  { "InterfileImageHeader::read_matrix_info", true, "lloc", "C17:alloc:number of dimensions drives vector::resize (L4)" },
-  { "InterfileHeader::read_frames_info", true, "lloc", "C17:alloc:number of time frames drives vector::resize (L4)" },
-  { "InterfileHeader::read_num_energy_windows", true, "lloc", "C17:alloc:number of energy windows drives vector::resize (L4)" },
-  { "InterfileImageHeader::read_image_data_types", true, "lloc", "C17:alloc:number of image data types drives vector::resize (L4)" },
-  // L4 (second part): empty inner matrix_size vectors / too short matrix_labels are indexed
-  { "InterfilePDFSHeader::find_storage_order", false, "", "C17:oob:InterfilePDFSHeader::find_storage_order indexes empty matrix_size/matrix_labels elements (L4)" },
-  // F5
-  { "Scanner::get_num_transaxial_blocks", false, "", "C17:sigfpe:Scanner::check_consistency divides by zero crystals/blocks (F5)" },
-  { "Scanner::get_num_axial_blocks", false, "", "C17:sigfpe:Scanner::check_consistency divides by zero crystals/blocks (F5)" },
-  { "Scanner::get_num_transaxial_buckets", false, "", "C17:sigfpe:Scanner::check_consistency divides by zero crystals/blocks (F5)" },
-  { "Scanner::get_num_axial_buckets", false, "", "C17:sigfpe:Scanner::check_consistency divides by zero crystals/blocks (F5)" },
-  // F6
-  { "InterfileRawDataHeaderSiemens::post_processing", false, "", "C17:oob:PET_data_type_values[-1] when 'PET data type' is not in the list (F6)" },
-  { "InterfilePDFSHeader::post_processing", false, "", "C17:oob:PET_data_type_values[-1] when 'PET data type' is not in the list (F6)" },
-  { "InterfileImageHeader::post_processing", false, "", "C17:oob:PET_data_type_values[-1] when 'PET data type' is not in the list (F6)" },
-  // F7: the image is allocated from the matrix sizes before the data file is looked at
-  { "create_image_and_header_from", true, "lloc", "C17:alloc:image allocated from 'matrix size' before the data file is checked (F7)" },
-  // F8: SPECT header: 'number of projections' <= 0 / absent, or fewer than 2 dimensions, are used unchecked
-  { "InterfilePDFSHeaderSPECT::post_processing", false, "", "C17:oob:InterfilePDFSHeaderSPECT::post_processing uses num_views / matrix_labels[1] unchecked (F8)" },
-  { "InterfilePDFSHeaderSPECT::post_processing", true, "lloc", "C17:alloc:SPECT 'number of projections' drives an allocation (F8)" },
-  // F9: zero data sets ('number of time frames := 0'): element [0] of empty vectors is used
-  { "read_interfile_image", false, "", "C17:oob:zero data sets: data_offset_each_dataset[0] / image_scaling_factors[0] of empty vectors (F9)" },
-  { "read_interfile_dynamic_image", false, "", "C17:oob:zero data sets: data_offset_each_dataset[0] / image_scaling_factors[0] of empty vectors (F9)" },
-  { "read_interfile_parametric_image", false, "", "C17:oob:zero data sets: data_offset_each_dataset[0] / image_scaling_factors[0] of empty vectors (F9)" },
-  { "read_interfile_PDFS", false, "heap-", "C17:oob:zero data sets: data_offset_each_dataset[0] / image_scaling_factors[0] of empty vectors (F9)" },
-  { "InterfileHeader::post_processing", false, "", "C17:oob:zero data sets: image_scaling_factors[0][0] of an empty vector (F9)" },
-  // F10: strcpy of 'name of data file' into a char[max_filename_length]
-  { "create_image_and_header_from", false, "stack-buffer-overflow", "C17:overflow:strcpy of 'name of data file' into char[1000] (F10)" },
-  { "read_interfile_PDFS", false, "stack-buffer-overflow", "C17:overflow:strcpy of 'name of data file' into char[1000] (F10)" },
-  // F11: keys registered with the address of a vector element; a later count keyword reallocates the vector
-  { "KeyParser::set_variable", false, "heap-use-after-free", "C17:uaf:key registered with &vector[0], vector resized by a later count keyword (F11)" },
-  // L4 again, other count keywords
-  // F15: a continuation backslash on the last line: read_line() appends the stale line for ever
-  { "stir::read_line", true, "", "C17:hang:continuation backslash at the end of the input: read_line() never ends and grows its buffer (F15)" },
-  { "MultipleDataSetHeader::read_num_data_sets", true, "lloc", "C17:alloc:total number of data sets drives vector::resize (L4)" },
-  { "InterfilePDFSHeaderSiemens::read_scan_data_types", true, "lloc", "C17:alloc:number of scan data types drives vector::resize (L4)" },
-  { "InterfilePDFSHeaderSiemens::read_bucket_singles_rates", true, "lloc", "C17:alloc:%number of buckets drives vector::resize (L4)" },
-  { "InterfileNormHeaderSiemens::read_num_components", true, "lloc", "C17:alloc:%number of normalization components drives vector::resize (L4)" },
-  { "InterfilePDFSHeaderSiemens::read_scan_data_types", true, "length_error", "C17:uninit:Siemens count keyword without a parsable value (F13)" },
-  { "InterfilePDFSHeader::resize_segments_and_set", true, "lloc", "C17:alloc:matrix size of the segment axis drives vector::resize (L4)" },
+  // F7: allocations sized by "matrix size" before the data file is looked at
+  // (the image constructor somewhere in the stack; NOT create_image_and_header_from, which is also in the stack of
+  //  everything the header parser allocates)
+  { "VoxelsOnCartesianGrid", true, "lloc", SIG_F7 },
+  // (the list of scale factors: post_processing itself is the first library frame)
+  { "InterfileHeader::post_processing", false, "lloc", SIG_F7 },
 };
+
+//! UBSan reports about arithmetic on boundary numbers (NaN/inf/huge converted to int, signed overflow, shift): the property
+//! text speaks about memory accesses, allocations and sizes, not about arithmetic; such a report is neither a finding nor a
+//! known finding.  (Limit of the method: the asan flavour stops at the first such report, so what the library would do
+//! afterwards is only seen by the plain flavour.)
+bool
+outside_the_property(const std::string& headline)
+{
+  return headline.find("runtime error:") != std::string::npos
+         && (headline.find("is outside the range of representable values") != std::string::npos
+             || headline.find("signed integer overflow") != std::string::npos
+             || headline.find("cannot be represented in type") != std::string::npos);
+}
+const char* const OUTSIDE = "outside the property: UBSan report about arithmetic on boundary numbers (no memory access, allocation or size involved)";
 
 //! library frames of a sanitizer report above the harness (function + file:line), and the report's headline
 void
@@ -1487,12 +1301,6 @@ known_site_signature(const std::vector<std::string>& frames, const std::string& 
 {
   if (c17::no_exclude())
     return "";
-  // F12: arithmetic undefined behaviour on boundary numbers (NaN/inf/huge converted to int, signed overflow): reported by
-  // UBSan all over the geometry code once a header carries such a number; not a memory error, one class for all sites
-  if (headline.find("runtime error:") != std::string::npos
-      && (headline.find("is outside the range of representable values") != std::string::npos
-          || headline.find("signed integer overflow") != std::string::npos || headline.find("cannot be represented in type") != std::string::npos))
-    return "C17:ubsan:arithmetic undefined behaviour on boundary numbers (F12)";
   if (frames.empty())
     return "";
   for (const KnownSite& k : KNOWN_SITES)
@@ -1535,7 +1343,8 @@ struct Server
       }
   }
   ~Server() { stop(); }
-  static bool read_line(int fd, std::string& line, int timeout_ms)
+  //! 1: a line was read; 0: timeout (the other side is alive but silent); -1: EOF (the other side is gone)
+  static int read_line(int fd, std::string& line, int timeout_ms)
   {
     line.clear();
     char ch;
@@ -1544,19 +1353,19 @@ struct Server
         struct pollfd p = { fd, POLLIN, 0 };
         const int r = poll(&p, 1, timeout_ms);
         if (r <= 0)
-          return false; // timeout
+          return 0; // timeout
         const ssize_t n = read(fd, &ch, 1);
         if (n <= 0)
-          return false; // EOF: the other side is gone
+          return -1; // EOF: the other side is gone
         if (ch == '\n')
-          return true;
+          return 1;
         line += ch;
       }
   }
   void child_loop(int in, int out)
   {
     std::string line;
-    while (read_line(in, line, -1))
+    while (read_line(in, line, -1) == 1)
       {
         std::string reply;
         try
@@ -1677,8 +1486,8 @@ run_isolated(int target, int sub, const std::string& hdr_path, const std::string
       }
   }
   std::string reply;
-  const bool got = sent && Server::read_line(srv.from, reply, 120000);
-  if (got)
+  const int got = sent ? Server::read_line(srv.from, reply, 120000) : -1;
+  if (got == 1)
     {
       const std::string e = srv.drain_err(false); // e.g. the stack of a big allocation that did not kill the child
       parse_report(e, iso.frames, iso.headline);
@@ -1695,14 +1504,16 @@ run_isolated(int target, int sub, const std::string& hdr_path, const std::string
     }
   // no reply: the child died, or hangs
   int status = 0;
-  const pid_t w = waitpid(srv.pid, &status, WNOHANG);
-  if (w == 0)
+  if (got == 0)
     {
       // still alive: a hang (or very slow); end it
       iso.died = "timeout";
       srv.stop();
       return iso;
     }
+  // EOF on the reply pipe: the child is dead or dying (a sanitizer may still be writing its report): wait for it.
+  // (A WNOHANG test at this place raced with the dying process and classified crashes as "timeout".)
+  waitpid(srv.pid, &status, 0);
   const std::string e = srv.drain_err(true);
   parse_report(e, iso.frames, iso.headline);
   close(srv.to);
@@ -1855,7 +1666,7 @@ check(const json& c)
     }
 
   // ---- bookkeeping from the text (conservative)
-  const std::vector<KV> kvs = mini_parse(text);
+  std::vector<KV> kvs = mini_parse(text);
   bool has_start = false, has_stop = false;
   for (const KV& kv : kvs)
     {
@@ -1864,6 +1675,13 @@ check(const json& c)
       if (kv.key == "end of interfile" || kv.key == "end")
         has_stop = true;
     }
+  // parsing stops at the stop key (documented): what follows "END OF INTERFILE" is not part of the header
+  for (std::size_t i = 0; i < kvs.size(); ++i)
+    if (kvs[i].key == "end of interfile")
+      {
+        kvs.resize(i);
+        break;
+      }
   long bpp = -1, offset = -1;
   {
     std::string v;
@@ -1890,6 +1708,18 @@ check(const json& c)
         if (unique_value(kvs, "data offset in bytes", 1, v1, occ1) && only_first)
           {
             if (!as_long(v1, offset))
+              offset = -1;
+          }
+        // "data offset in bytes" only becomes a keyword of the image and PET projection data headers when the line
+        // "type of data := PET" is processed (InterfileHeader::set_type_of_data); an offset line before that is an unknown
+        // keyword, which KeyParser ignores as documented (the offset stays 0).  The offset of the text is therefore only
+        // treated as known when a "type of data" line precedes every offset line.
+        bool type_seen = false;
+        for (const KV& kv : kvs)
+          {
+            if (kv.key == "type of data")
+              type_seen = true;
+            else if (kv.key == "data offset in bytes" && !type_seen)
               offset = -1;
           }
       }
@@ -2007,6 +1837,11 @@ check(const json& c)
                                    : cat("a single allocation of ", refused, " bytes (> 512 MiB) was requested while reading a header of ", text.size(),
                                          " bytes (data file ", data_size, " bytes); outcome: ", o.how);
 #ifdef C17_ASAN
+      if (outside_the_property(iso.headline))
+        {
+          stats().count(OUTSIDE);
+          return Result::reject(OUTSIDE);
+        }
       const std::string known = known_site_signature(iso.frames, iso.headline);
       if (!known.empty())
         {
@@ -2020,6 +1855,11 @@ check(const json& c)
       return Result::fail(cat(what, "\n  report: ", c17::enc(iso.headline), "\n  library frames:", fr, ctx));
 #else
       const std::string verdict = ask_asan_flavour(c);
+      if (verdict.rfind(std::string("REJECT ") + OUTSIDE, 0) == 0)
+        {
+          stats().count(OUTSIDE);
+          return Result::reject(OUTSIDE);
+        }
       if (verdict.rfind("REJECT known:", 0) == 0)
         {
           stats().excluded_known++;
